@@ -32,44 +32,94 @@ class Stats(object):
         self.per_case = {}
 
 
+def _work_subtree(args):
+    """Explore the whole subtree below one schedule prefix depth-first inside the worker (bounded memory)."""
+    mod, fn, case, ci, root, bound, free_bound, sub_cap = args
+    f = getattr(importlib.import_module(mod), fn)
+    from vf.runner import retry_env
+    stack = [root]
+    n = pts_total = maxpts = 0
+    by_pre = {}
+    obs_set = set()
+    viols = []
+    capped = False
+    while stack:
+        pf = stack.pop()
+        pts, viol, obs = retry_env(f, case, pf)
+        n += 1
+        pts_total += len(pts)
+        maxpts = max(maxpts, len(pts))
+        k = S.preemptions(pts)
+        by_pre[k] = by_pre.get(k, 0) + 1
+        if len(obs_set) < 2000:
+            obs_set.add(obs)
+        if viol:
+            for v in viol:
+                sig, what, vcase, detail = v
+                vcase = dict(vcase or case)
+                vcase["schedule"] = [pf[0], {str(a): b for a, b in pf[1].items()}]
+                viols.append((sig, what, vcase, detail))
+            break            # the first violating schedule of this subtree is enough
+        stack.extend(S.children(pf[0], pts, bound, free_bound))
+        if sub_cap is not None and n >= sub_cap:
+            capped = bool(stack)
+            break
+    return ci, n, pts_total, maxpts, by_pre, obs_set, viols, capped
+
+
 def explore(ctx, mod, fn, cases, bound, cap=None, chunksize=4, stats=None, stop_case_on_violation=True,
             free_bound=None):
-    """Explore every case (list of JSON-able dicts) under all schedules with <= bound preemptions."""
+    """Explore every case (list of JSON-able dicts) under all schedules within the bounds.
+    Level 0 (default schedules) runs first, so the simplest counterexamples come first; every first-level
+    alternative is then explored as a subtree inside one worker (depth-first, bounded memory)."""
     st = stats or Stats()
-    frontier = [(ci, (0, {})) for ci in range(len(cases))]
     dead = set()
-    while frontier:
-        if cap is not None and st.executions + len(frontier) > cap:
-            frontier = frontier[:max(0, cap - st.executions)]
+    roots = [(mod, fn, cases[ci], (0, {}), bound, free_bound) for ci in range(len(cases))]
+    level1 = []
+    for ci, (kids, viol, obs, npts, npre) in enumerate(ctx.pimap(_work, roots, chunksize)):
+        st.executions += 1
+        st.per_case[ci] = st.per_case.get(ci, 0) + 1
+        st.points += npts
+        st.max_points = max(st.max_points, npts)
+        st.by_preemptions[npre] = st.by_preemptions.get(npre, 0) + 1
+        st.observations.add((ci, obs))
+        if viol:
+            for v in viol:
+                sig, what, case, detail = v
+                case = dict(case or cases[ci])
+                case["schedule"] = [0, {}]
+                ctx.violation(sig, what, case, detail)
+            dead.add(ci)
+            continue
+        level1.extend((ci, k) for k in kids)
+    if not level1:
+        st.bound_completed = bound
+        return st
+    sub_cap = None
+    if cap is not None:
+        sub_cap = max(2000, (cap * 4) // max(1, len(level1)))
+    # largest subtrees first (alternatives early in an execution have the most points after them)
+    level1.sort(key=lambda x: x[1][0])
+    tasks = [(mod, fn, cases[ci], ci, pf, bound, free_bound, sub_cap) for ci, pf in level1]
+    last_note = 0
+    for ci, n, pts_total, maxpts, by_pre, obs_set, viols, capped in ctx.pimap_unordered(_work_subtree, tasks, 1):
+        st.executions += n
+        st.per_case[ci] = st.per_case.get(ci, 0) + n
+        st.points += pts_total
+        st.max_points = max(st.max_points, maxpts)
+        for k, c in by_pre.items():
+            st.by_preemptions[k] = st.by_preemptions.get(k, 0) + c
+        if len(st.observations) < 200000:
+            st.observations.update((ci, o) for o in obs_set)
+        for sig, what, vcase, detail in viols:
+            ctx.violation(sig, what, vcase, detail)
+        if capped:
             st.capped = True
-            if not frontier:
-                break
-        jobs = [(mod, fn, cases[ci], pf, bound, free_bound) for ci, pf in frontier]
-        nxt = []
-        for (ci, pf), (kids, viol, obs, npts, npre) in zip(frontier, ctx.pimap(_work, jobs, chunksize)):
-            st.executions += 1
-            st.per_case[ci] = st.per_case.get(ci, 0) + 1
-            st.points += npts
-            st.max_points = max(st.max_points, npts)
-            st.by_preemptions[npre] = st.by_preemptions.get(npre, 0) + 1
-            st.observations.add((ci, obs))
-            if viol:
-                for v in viol:
-                    sig, what, case, detail = v
-                    case = dict(case or cases[ci])
-                    case["schedule"] = [pf[0], {str(k): v2 for k, v2 in pf[1].items()}]
-                    ctx.violation(sig, what, case, detail)
-                if stop_case_on_violation:
-                    dead.add(ci)
-                continue
-            if ci in dead:
-                continue
-            nxt.extend((ci, k) for k in kids)
-        frontier = [(ci, k) for ci, k in nxt if ci not in dead]
-        if st.executions - getattr(st, "_last_note", 0) >= 20000:
-            st._last_note = st.executions
-            ctx.note("... %d executions so far, next wave %d, %.0fs" % (st.executions, len(frontier), ctx.elapsed()))
-        if st.capped:
+        if st.executions - last_note >= 50000:
+            last_note = st.executions
+            ctx.note("... %d executions so far, %.0fs" % (st.executions, ctx.elapsed()))
+        if cap is not None and st.executions >= cap:
+            st.capped = True
             break
     if not st.capped:
         st.bound_completed = bound
